@@ -72,6 +72,14 @@ func main() {
 	stability := flag.Int("stability", 0, "re-run every discharged obligation with this many z3 random seeds and report the ones that do not always discharge")
 	flag.Parse()
 	t0 := time.Now()
+	// the repository needs go >= 1.26 (the default go of the sandbox is older): make `go list` use the right toolchain, offline
+	if _, err := os.Stat("/opt/veriftools/go1.26.8/bin/go"); err == nil {
+		os.Setenv("PATH", "/opt/veriftools/go1.26.8/bin:"+os.Getenv("PATH"))
+	}
+	os.Setenv("GOFLAGS", "-mod=mod")
+	os.Setenv("GOPROXY", "off")
+	os.Setenv("GOSUMDB", "off")
+	os.Setenv("GOTOOLCHAIN", "local")
 	if *timeout == 0 {
 		*timeout = 10
 		if *tier == "thorough" {
